@@ -11,7 +11,7 @@ base runner.  No operating-system process is ever started.
 
 One round = [any subset of the live tracked workers dies before the heartbeat report] ->
 report -> [any disjoint subset dies between the report and the iteration] -> iteration ->
-sleep (virtual).  Every spawned stand-in worker then "boots" the way the real child entry
+sleep (virtual).  (quick tier: one kind of death per round, thorough: mixed kinds.)  Every spawned stand-in worker then "boots" the way the real child entry
 point does (registers its runner context + first heartbeat, claims one invocation through the
 real orchestrator and marks it RUNNING) and hangs there: every worker has one unfinished
 invocation when it dies.
@@ -740,6 +740,7 @@ def _expand(p: Partial, cfg: dict, level: list, reported: set, mixed: bool) -> t
             p.count("transitions")
             p.count("traces_validated_against_impl", 2)
             _report(p, cfg, d, h2, reported, "second-iteration+probe")
+            p.count(f"transitions_{cfg['runner']}", 2)
             p.count("workers_spawned", len(d.os.procs))
             p.max("max_workers_in_one_history", len(d.os.procs))
             for k, v in d.stats.items():
